@@ -5,6 +5,7 @@ exactly for the members that arrived and left; slices, dicts and iterable argume
 import importlib
 import contracts.collections_list  # noqa: F401
 import contracts.collections_set  # noqa: F401
+import contracts.collections_dict  # noqa: F401
 from pyvc.contract import FUNCS
 from vlib.proof import run_proofs
 from vlib.bounded import run_bounded
@@ -21,6 +22,6 @@ def run(run, tier, seed, args):
     run.assumptions += [
         "assumed contracts on the event helpers: __set logs ('A', item) and returns the item unchanged, __del logs ('R', item), __before_pop does nothing observable",
         "`fn` is the builtin list method of the same name (builtin contract); user-defined __eq__ of members is not modelled",
-        "under proof: list append, insert, remove, __setitem__(int), __delitem__(int), pop; all 13 set decorators with a set argument (the event clause of the bulk operations is order-insensitive: the ghost log starts empty and ends duplicate free with exactly one 'R' per member that left and one 'A' per arrival, 'W' for re-added members)",
-        "bounded complement only: list slice forms, extend, +=, clear (slice assignment has known defects, DESIGN §6 #3-#5), the dict decorators, set operations with non-set iterables (repeated members), _set_binops_check_strict (an arbitrary bool here)",
+        "under proof: list append, insert, remove, __setitem__(int), __delitem__(int), pop, extend, +=, clear; all 13 set decorators with a set argument (the event clause of the bulk operations is order-insensitive: the ghost log starts empty and ends duplicate free with exactly one 'R' per member that left and one 'A' per arrival, 'W' for re-added members); dict __setitem__, __delitem__, pop, popitem, setdefault, clear (events over the values)",
+        "bounded complement only: list slice forms (slice assignment has known defects, DESIGN §6 #3-#5), dict update(**kw), set operations with non-set iterables (repeated members), _set_binops_check_strict (an arbitrary bool here)",
     ]
